@@ -117,6 +117,7 @@ class CtlQueue:
     def __init__(self, name: str) -> None:
         self.name = name
         self.items: deque = deque()
+        self.timeouts = 0
 
     def put(self, x, block=True, timeout=None):  # noqa: ARG002
         c = CTL
@@ -137,10 +138,18 @@ class CtlQueue:
                     c.log({"e": "out", "batch": g["batch"], "best": g["best"]})
         self.items.append((x, g))
 
-    def get(self, block=True, timeout=None):  # noqa: ARG002
+    def get(self, block=True, timeout=None):
         c = CTL
         if c is not None:
-            c.sync(f"get:{self.name}", enabled=lambda: len(self.items) > 0)
+            timed = (not block) or timeout is not None
+            # a timed wait may end either way: whether the item or the timeout comes first is the scheduler's choice
+            # (at most two timeouts in a row on one queue, so that a polling loop cannot starve the other thread)
+            c.sync(f"get:{self.name}", enabled=lambda: len(self.items) > 0 or (timed and self.timeouts < 2))
+            if not self.items:
+                self.timeouts += 1
+                c.log({"e": "timeout", "q": self.name})
+                raise queue.Empty
+            self.timeouts = 0
         elif not self.items:
             raise queue.Empty
         x, g = self.items.popleft()
